@@ -97,7 +97,9 @@ CRefs(e) ==
   \A r \in DOMAIN e.obs : \A x \in S(e.obs[r].refs) :
      IF ~Cfg.referrers THEN x.st = 404
      ELSE LET U == {y \in DOMAIN man'[r] : SubjectOf(y) = x.s}
-              E == {d \in U : x.f = "" \/ ATOf(d) = x.f} IN
+              \* a descriptor that does not fit on a page of its own is left out (page1: size of that page, from the catalogue)
+              Fits(d) == Cfg.refLimit = 0 \/ "page1" \notin DOMAIN Cat.digs[d] \/ Cat.digs[d].page1 <= Cfg.refLimit
+              E == {d \in U : (x.f = "" \/ ATOf(d) = x.f) /\ Fits(d)} IN
           /\ x.st = 200
           /\ S(x.list) = E /\ Len(x.list) = Cardinality(E)
           /\ x.bad = <<>>
